@@ -1199,6 +1199,17 @@ static void op_chain(op_t *ops, int nops, int idx)
     chain_level(ops, nops, idx, 0);
 }
 
+static __attribute__((noinline)) void vfork_launcher(call_t *c, int n)
+{
+    for (volatile int r = 0; r < n; r++) {
+        pid_t p = vfork();
+        if (p == 0) { call_run(c); _exit(0); }
+        if (p < 0) { ev_error("vfork"); break; }
+        int st; while (waitpid(p, &st, 0) < 0 && errno == EINTR) ;
+        ev_t e = {0}; ev_begin(&e, 'v'); ev_int(&e, (int) p); ev_int(&e, WIFEXITED(st) ? WEXITSTATUS(st) : -WTERMSIG(st)); ev_end(&e); ev_free(&e);
+    }
+}
+
 static void run_ops(op_t *ops, int nops)
 {
     for (int i = 0; i < nops; i++) {
@@ -1233,6 +1244,15 @@ static void run_ops(op_t *ops, int nops)
         case 'N': { char *p = dupz(op->a[0].p, op->a[0].len); prctl(PR_SET_NAME, p, 0, 0, 0); free(p); break; }
         case 's': if (setsid() < 0) ev_error("setsid"); break;
         case 'd': g_zleader_mask = (unsigned) arg_ll(&op->a[0]); break;
+        case 'v': { /* launcher: args n; the following X op is made n times, each time in a vfork() child of this process (the way
+                       posix_spawn()-less launchers and shells start programs); vfork shares the address space and runs no fork handlers */
+            if (i + 1 >= nops) { ev_error("bad v"); break; }
+            int n = arg_int(&op->a[0]);
+            call_t c; call_prepare(&c, &ops[i + 1]);
+            vfork_launcher(&c, n);
+            call_release(&c);
+            i += 1;
+            break; }
         case 'x': for (uint32_t k = 0; k < op->n; k++) { char *p = dupz(op->a[k].p, op->a[k].len); unlink(p); free(p); } break;
         case 'L': fflush(stdout); fflush(stderr); break;
         case 'k': { mode_t m = (mode_t) strtol(dupz(op->a[0].p, op->a[0].len), NULL, 8); umask(m); break; }
